@@ -28,6 +28,10 @@ ROWS = [
     (P % ("function::declaration::FunctionDeclaration", "Recreate", "recreate"), LV + "function_layer", ["instruction::recreate_instructions"], "declared function body when folding"),
     (P % ("function::declaration::FunctionDeclaration", "Exec", "exec"), LV + "from_params", [LV + "insert", "instruction::recreate_instructions"], "capture by value + own name stays a run-time lookup (recursion)"),
 ]
+# the list-level helpers are a map of the element-level call over the slice: either form runs / folds the body
+ALTS = {IN + "exec": (IN + "exec", "instruction::Exec::exec"),
+        "instruction::recreate_instructions": ("instruction::recreate_instructions", "instruction::InstructionWithStr::recreate",
+                                               "instruction::Recreate::recreate")}
 # run-time shape of constructs that get their run-time layer from a Block they emit
 EMITS_BLOCK = {"instruction::r#loop::r#for::create_instruction": "for = Block[$iter := .., loop Block[...]]: run-time layers come from the emitted Blocks",
                "instruction::module::new": "module / import = Block[body..., struct of its names]"}
@@ -83,7 +87,8 @@ def run(ctx):
         kills = {i for i, blk in enumerate(b.blocks) for st in blk["stmts"] if st["k"] == "dead" and st["l"] == layer}
         live = b.reachable(mk[0].term.get("target", mk[0].bb), avoid=kills) if mk[0].term.get("target") is not None else set()
         for u in users:
-            sites = [(bb, c) for bb in bodies for c in bb.calls if (c.callee == u or c.path == u) and (bb is not b or c.bb in live)]
+            alts = ALTS.get(u, (u,))
+            sites = [(bb, c) for bb in bodies for c in bb.calls if (c.callee in alts or c.path in alts) and (bb is not b or c.bb in live)]
             if not sites:
                 bad = "while its new scope is alive, %s never calls %s" % (bid, u)
                 break
